@@ -1,9 +1,9 @@
 (* C03 — a shape accepts every sample it was inferred from. *)
 From Coq Require Import List Bool NArith.
 Import ListNotations.
-From JS Require Import Model.Base Model.Shape Model.Sem Model.Subset Model.Infer Model.Api
-  Proofs.SubsetFacts Proofs.SupersetFacts Proofs.SupersetFragment.
-From JS Require Import Model.Lexer Model.Walk Model.TextApi Model.JsonRef Proofs.TextComplete Proofs.TextLift.
+From JS Require Import Model.Base Model.Shape Model.Sem Model.Subset Model.Merger Model.Infer Model.Api
+  Proofs.SubsetFacts Proofs.SupersetFacts Proofs.SupersetFragment Model.OneOfClass Proofs.SupersetScalar.
+From JS Require Import Model.Lexer Model.Walk Model.TextApi Model.JsonRef Proofs.TextComplete Proofs.TextLift Proofs.TextLiftScalar.
 
 Theorem C03_self : forall s, wf s = true -> is_subset s s = true.
 Proof. exact subset_refl. Qed.
@@ -27,6 +27,39 @@ Theorem C03_oneof_free_superset : forall ds m, from_sources_tree ds = Ok m -> on
 Proof. exact sources_superset_free. Qed.
 Print Assumptions C03_oneof_free_superset.
 
+(* The wider class [scalar_oneofs] (Model/OneOfClass.v): every OneOf node of the merged shape is a union of
+   non-optional scalar kinds -- the README's `T + U = OneOf[T | U]` -- with either value of its own flag,
+   anywhere in the shape (member of an object, element type of an array obtained from a tuple, root).
+   It contains the OneOf-free class strictly; all three forms of the property hold on it. *)
+Theorem C03_scalar_class_contains_free : forall s, oneof_free s = true -> scalar_oneofs s = true.
+Proof. exact oneof_free_scalar_oneofs. Qed.
+Print Assumptions C03_scalar_class_contains_free.
+
+Theorem C03_scalar_oneofs_subset : forall ds m, from_sources_tree ds = Ok m -> scalar_oneofs m = true ->
+  forall d sd, In d ds -> infer_text d = Ok sd -> is_subset sd m = true.
+Proof. exact sources_accept_scalar. Qed.
+Print Assumptions C03_scalar_oneofs_subset.
+
+Theorem C03_scalar_oneofs_superset : forall ds m, from_sources_tree ds = Ok m -> scalar_oneofs m = true ->
+  forall d, In d ds -> is_superset_tree m d = true /\ is_superset_checked_tree m d = Ok true.
+Proof. exact sources_superset_scalar. Qed.
+Print Assumptions C03_scalar_oneofs_superset.
+
+(* the two lemmas that carry it: a merge whose result is in the class accepts both operands (any wf operands),
+   and acceptance is transitive below a shape of the class *)
+Theorem C03_merge_accepts_operands : forall a b, wf a = true -> wf b = true -> scalar_oneofs (merger a b) = true ->
+  is_subset a (merger a b) = true /\ is_subset b (merger a b) = true.
+Proof. exact merger_dominates_scalar. Qed.
+Print Assumptions C03_merge_accepts_operands.
+
+Theorem C03_subset_trans_scalar : forall a b c, wf c = true -> scalar_oneofs c = true ->
+  is_subset a b = true -> is_subset b c = true -> is_subset a c = true.
+Proof. exact subset_trans_scalar'. Qed.
+Print Assumptions C03_subset_trans_scalar.
+
+Example C03_scalar_class_nonvacuous : exists ds m, from_sources_tree ds = Ok m /\ scalar_oneofs m = true /\ oneof_free m = false.
+Proof. exact scalar_class_nontrivial. Qed.
+
 (* PARTIAL beyond that class. Full statement (false of the faithful model, see below):
      forall ds s, from_sources_tree ds = Ok s -> forall d, In d ds ->
        is_superset_tree s d = true /\ is_superset_checked_tree s d = Ok true /\
@@ -34,7 +67,7 @@ Print Assumptions C03_oneof_free_superset.
    KF2: is_subset is incomplete against OneOf forms (exact-match contains tests, the Null arm looks
    only at the optional flag), so the merged shape of [true, null, 1] rejects its own source null. *)
 Theorem C03_kf2_refuted : exists ds s d, from_sources_tree ds = Ok s /\ In d ds /\
-  oneof_free s = false /\ is_superset_tree s d = false.
+  scalar_oneofs s = false /\ is_superset_tree s d = false.
 Proof.
   exists [JBool; JNull; JNum]. eexists. exists JNull. vm_compute. repeat split. right. left. reflexivity.
 Qed.
@@ -47,6 +80,13 @@ Theorem C03_text_oneof_free : forall srcs ds sh, Forall2 text_of srcs ds ->
   is_superset_m cfg_now sh s = Ok true /\ is_superset_checked_m cfg_now sh s = Ok true.
 Proof. exact text_sources_accept_free. Qed.
 Print Assumptions C03_text_oneof_free.
+
+Theorem C03_text_scalar_oneofs : forall srcs ds sh, Forall2 text_of srcs ds ->
+  from_sources_m cfg_now srcs = Ok sh -> scalar_oneofs sh = true ->
+  forall s d, text_of s d -> In d ds ->
+  is_superset_m cfg_now sh s = Ok true /\ is_superset_checked_m cfg_now sh s = Ok true.
+Proof. exact text_sources_accept_scalar. Qed.
+Print Assumptions C03_text_scalar_oneofs.
 
 Example C03_nonvacuous :
   let d := JObj [([97%N], JArr [JNum; JStr]); ([98%N], JArr [])] in
